@@ -97,7 +97,7 @@ def vfskip (req : Json) : R Reply := do
       let ms ← asList asGlyphSet mj
       let I : C09.Inst := { locs := ← asList asRat (← field i "locs"), defaultIdx := ← asNat (← field i "defaultIdx") }
       let ats ← asList asRat (← field i "at")
-      -- are the hypotheses of `C13_vf_render` met? (`famCert_sound`, `inHull_sound`)
+      -- are the hypotheses of `C13_vf_render_total` met? (`famCert_total`, `famCert_sound`, `inHull_sound`)
       let hyp := Json.bool (famCert I ms (depthCert (ms.getD I.defaultIdx [])) && ats.all (inHull I))
       match skipFamily skip I ms with
       | .error e => pure (Json.mkObj [("err", gerrJ e)], hyp)
